@@ -6,12 +6,13 @@ TECHNIQUE = "switch-table extraction from MIR compared with the format's escape 
 EXPLANATION = ("Extracts from gix_quote::ansi_c::undo the table `escape character -> byte pushed` and requires it to be exactly git's "
                "quote_c_style set (a b t n v f r \" \\ with their C values), that the octal branch is entered for exactly '0'..'3', reads two "
                "more digits and parses with radix 8, and that every other escape byte reaches the UnsupportedEscapeByte error. "
-               "The consumed-byte count for all inputs is a value property and is not decided.")
+               "undo() contains no reverse byte search (the closing quote is the first unescaped one; positive control elsewhere). The consumed-byte count for all inputs is a value property and is not decided.")
 SPEC = {ord("n"): 10, ord("r"): 13, ord("t"): 9, ord("a"): 7, ord("b"): 8, ord("v"): 11, ord("f"): 12, ord('"'): 34, ord("\\"): 92}
 
 
 def run(db, chk):
     f = db.one(r"^gix_quote::ansi_c::undo$")
+    forward_scan_rule(db, chk, f)
     fl = Flow(f)
     best = None
     for sw in tab.switches(f, 8):
@@ -43,3 +44,21 @@ def run(db, chk):
     chk.ob("unknown-escape-is-error", "undo otherwise arm", err, "unknown escape bytes must produce UnsupportedEscapeByte", "%s:%d" % (f.file, f.line), key="unknown-escape-is-error")
     chk.set("switch_arms", len(best["arms"]))
     chk.sample({"table": {chr(k): sorted(v) for k, v in got.items()}})
+
+
+REVERSE = r"::rfind_byte$|::rfind$|::rfind_byteset$|::rposition$|::rsplit\w*$|::last_byte$|memrchr"
+
+
+def forward_scan_rule(db, chk, f):
+    """the closing quote of a C-style quoted string is the FIRST unescaped quote: undo() may only search forwards.  Zero-expected rule with a positive
+    control (the reverse-search pattern must match somewhere else in the workspace)."""
+    fam = [f] + db.closures_of(f)
+    hits = [(g, c) for g in fam for c in g.calls() if c.is_(REVERSE)]
+    ctl = sum(1 for crate in ("gix_url", "gix_path", "gix_ref", "gix_glob", "gix_config", "gix_object", "gix_refspec") for g in db.by_crate.get(crate, []) for c in g.calls() if c.is_(REVERSE))
+    chk.floor("control: reverse byte searches recognised elsewhere in the workspace", ctl, 1)
+    for g, c in hits:
+        chk.ob("closing-quote-searched-forwards", "undo %s@%d" % (c.name.split("::")[-1], c.line), False,
+               "a reverse search in undo() finds the LAST quote: for two quoted strings in a row everything up to the last quote is taken as one string and `consumed` points past it",
+               c.where(), key="reverse-search|undo|%s" % c.name.split("::")[-1])
+    if not hits:
+        chk.ob("closing-quote-searched-forwards", "undo (no reverse search)", True)
